@@ -27,6 +27,7 @@ type dispatchModel struct {
 	checkAssign *ssa.Function // allocates tasks
 	setContext  *ssa.Function // stores into used
 	barrier     *ssa.Function // waits on the notification barrier
+	allocFn     *ssa.Function // the function that allocates tasks (inside checkAssign's region)
 	problems    []string
 }
 
@@ -86,57 +87,68 @@ func resolveDispatch(c *chk.Ctx) *dispatchModel {
 	for _, s := range c.P.Callers(d.invoke) {
 		d.invokeSites = append(d.invokeSites, s.Instr)
 	}
-	// the dispatch closure: the closure that calls the delivery function (a Server method
-	// taking a message list) and from which every handler invocation is reached, possibly
-	// through private helpers
-	for _, f := range pkgFuncs(c, c.M.Pkg) {
-		if f.Parent() == nil {
-			continue
+	// signature roles: the response builder (tasks → message list) and the counter (tasks → int, int)
+	tasksFirst := func(sig *types.Signature) bool {
+		if sig.Recv() != nil {
+			return isTasksType(c, sig.Recv().Type())
 		}
-		ir.Calls(f, func(ci ssa.CallInstruction) {
-			g := ci.Common().StaticCallee()
-			if g == nil || g == d.invoke || ir.RecvNamed(g) != c.M.Server || g.Parent() != nil {
-				return
-			}
-			for _, p := range g.Params {
-				if isJmessagesType(c, p.Type()) {
-					reaches := len(d.invokeSites) > 0
-					for _, s := range d.invokeSites {
-						if !c.P.InExt(f, s.Parent()) {
-							reaches = false
-						}
-					}
-					if reaches {
-						if d.closure != nil && d.closure != f {
-							bad("several dispatch closures: %s and %s", ir.Name(d.closure), ir.Name(f))
-						}
-						d.closure, d.deliver, d.deliverCall = f, g, ci
-					}
-				}
-			}
-		})
-	}
-	if d.closure != nil {
-		d.prepare = d.closure.Parent()
+		return sig.Params().Len() >= 1 && isTasksType(c, sig.Params().At(0).Type())
 	}
 	for _, f := range pkgFuncs(c, c.M.Pkg) {
-		if f.Parent() != nil {
+		if f.Parent() != nil || !tasksFirst(f.Signature) {
 			continue
 		}
 		sig := f.Signature
-		if sig.Recv() != nil && isTasksType(c, sig.Recv().Type()) {
-			if sig.Results().Len() == 1 && isJmessagesType(c, sig.Results().At(0).Type()) {
-				d.responses = f
-			}
-			if sig.Results().Len() == 2 && sig.Results().At(0).Type().String() == "int" && sig.Results().At(1).Type().String() == "int" {
-				d.numToDo = f
-			}
+		if sig.Results().Len() == 1 && isJmessagesType(c, sig.Results().At(0).Type()) {
+			d.responses = f
 		}
+		if sig.Results().Len() == 2 && sig.Results().At(0).Type().String() == "int" && sig.Results().At(1).Type().String() == "int" {
+			d.numToDo = f
+		}
+	}
+	// the delivery call: the call that is handed the response builder's result
+	if d.responses != nil {
+		for _, f := range pkgFuncs(c, c.M.Pkg) {
+			ir.Calls(f, func(ci ssa.CallInstruction) {
+				g := ci.Common().StaticCallee()
+				if g == nil || !c.P.InRepo[g] || g == d.responses {
+					return
+				}
+				for _, a := range ci.Common().Args {
+					if !isJmessagesType(c, a.Type()) {
+						continue
+					}
+					for _, src := range c.P.SourcesStop(a, func(v ssa.Value) bool {
+						_, isCall := v.(*ssa.Call)
+						_, isParam := v.(*ssa.Parameter)
+						return isCall || isParam
+					}) {
+						if call, ok := src.(*ssa.Call); ok && call.Call.StaticCallee() == d.responses {
+							if d.deliverCall != nil && d.deliverCall != ci {
+								bad("the response builder's result is delivered at more than one site: %s and %s", c.P.Pos(d.deliverCall.Pos()), c.P.Pos(ci.Pos()))
+							}
+							d.deliver, d.deliverCall = g, ci
+						}
+					}
+				}
+			})
+		}
+	}
+	// the batch runner (historically a closure): the smallest region from which every handler
+	// invocation is reached and in which the reply is delivered
+	if d.deliverCall != nil && len(d.invokeSites) > 0 {
+		fs := []*ssa.Function{d.deliverCall.Parent()}
+		for _, s := range d.invokeSites {
+			fs = append(fs, s.Parent())
+		}
+		d.closure = c.P.RegionRoot(fs...)
+	}
+	for _, f := range pkgFuncs(c, c.M.Pkg) {
 		ir.Instrs(f, func(ins ssa.Instruction) {
 			switch x := ins.(type) {
 			case *ssa.Alloc:
 				if x.Heap && types.Unalias(x.Type().(*types.Pointer).Elem()) == types.Type(c.M.Task) {
-					d.checkAssign = f
+					d.allocFn = f
 				}
 			case *ssa.MapUpdate:
 				if chk.LoadsField(x.Map, c.M.SUsed) {
@@ -148,6 +160,24 @@ func resolveDispatch(c *chk.Ctx) *dispatchModel {
 				}
 			}
 		})
+	}
+	// the check/assign function: the smallest region that both creates the tasks and reserves their ids
+	if d.allocFn != nil && d.setContext != nil {
+		d.checkAssign = c.P.RegionRoot(d.allocFn, d.setContext)
+	}
+	// the prepare function: the smallest region that checks/assigns, counts and takes the barrier
+	if d.checkAssign != nil && d.barrier != nil && d.numToDo != nil {
+		var fs []*ssa.Function
+		for _, g := range []*ssa.Function{d.checkAssign, d.barrier, d.numToDo} {
+			for _, s := range c.P.Callers(g) {
+				if !c.P.InExt(g, s.Caller) {
+					fs = append(fs, s.Caller)
+				}
+			}
+		}
+		if len(fs) > 0 {
+			d.prepare = c.P.RegionRoot(fs...)
+		}
 	}
 	for name, f := range map[string]*ssa.Function{"dispatch closure": d.closure, "prepare": d.prepare, "deliver": d.deliver, "responses": d.responses,
 		"numToDo": d.numToDo, "checkAssign": d.checkAssign, "setContext": d.setContext, "barrier": d.barrier} {
@@ -171,6 +201,10 @@ func dispatchOrUndecided(c *chk.Ctx, rule string) *dispatchModel {
 
 // taskOf: v is a load of a field of a task; returns the (normalised) task value and the field.
 func taskFieldLoad(c *chk.Ctx, v ssa.Value) (task ssa.Value, f *types.Var, ok bool) {
+	if v == nil {
+		return nil, nil, false
+	}
+	v = c.P.Canon(v)
 	u, isU := v.(*ssa.UnOp)
 	if !isU || u.Op != token.MUL {
 		return nil, nil, false
@@ -179,7 +213,7 @@ func taskFieldLoad(c *chk.Ctx, v ssa.Value) (task ssa.Value, f *types.Var, ok bo
 	if !isFA || ir.FieldOwner(fa) != c.M.Task {
 		return nil, nil, false
 	}
-	return ir.NormCell(fa.X), ir.FieldVar(fa), true
+	return c.P.Canon(fa.X), ir.FieldVar(fa), true
 }
 
 // condsForSite: branch outcomes known at instruction ins; when ins is inside
@@ -525,7 +559,7 @@ func ruleResponses(c *chk.Ctx, d *dispatchModel) {
 	f := d.responses
 	// the appended message
 	var appends []*ssa.Call
-	ir.Instrs(f, func(ins ssa.Instruction) {
+	c.P.ExtInstrs(f, func(ins ssa.Instruction) {
 		if call, ok := ins.(*ssa.Call); ok {
 			if b, isB := call.Call.Value.(*ssa.Builtin); isB && b.Name() == "append" && isJmessagesType(c, call.Type()) {
 				appends = append(appends, call)
@@ -537,7 +571,13 @@ func ruleResponses(c *chk.Ctx, d *dispatchModel) {
 		return
 	}
 	ap := appends[0]
-	c.Check(ir.InCycle(ap.Block()), "PROV.reply", f, "one append per task", ap.Pos(), "single append, inside the loop over tasks", "the append is not inside the loop over tasks")
+	inLoop := false
+	for _, a := range anchorsIn(c, ap, f) {
+		if ir.InCycle(a.Block()) {
+			inLoop = true
+		}
+	}
+	c.Check(inLoop, "PROV.reply", f, "one append per task", ap.Pos(), "single append, inside the loop over tasks", "the append is not inside the loop over tasks")
 	// what is appended: a slice literal holding one fresh jmessage
 	var msg *ssa.Alloc
 	for _, src := range c.P.Sources(ap.Call.Args[1]) {
@@ -545,8 +585,8 @@ func ruleResponses(c *chk.Ctx, d *dispatchModel) {
 			_ = sl
 		}
 	}
-	// find the Alloc of jmessage in f
-	ir.Instrs(f, func(ins ssa.Instruction) {
+	// find the Alloc of jmessage in f (or a private helper of it)
+	c.P.ExtInstrs(f, func(ins ssa.Instruction) {
 		if al, ok := ins.(*ssa.Alloc); ok && al.Heap && types.Unalias(al.Type().(*types.Pointer).Elem()) == types.Type(c.M.Jmessage) {
 			msg = al
 		}
@@ -667,22 +707,20 @@ func ruleSkipPredicate(c *chk.Ctx, f *ssa.Function, ap *ssa.Call) {
 		c.Undecided("TABLE.skip", f, "skip predicate", ap.Pos(), "loop header not found")
 		return
 	}
-	var skips []*ssa.BasicBlock
-	for _, p := range hdr.Preds {
-		if p.Dominates(hdr) && !hdr.Dominates(p) {
-			continue // loop entry
-		}
-		if ap.Block().Dominates(p) || p == ap.Block() {
-			continue // normal end of iteration
-		}
-		skips = append(skips, p)
+	// the paths of one iteration that bypass the append (in the builder itself, or in the
+	// helper whose result is appended), with the branch outcomes taken along each
+	avoid := ap.Block()
+	raw, exits := ir.IterationPathsAvoiding(hdr, avoid)
+	var alts [][]ir.Cond
+	for _, p := range raw {
+		alts = append(alts, expandPredicateHelpers(c, p, 0)...)
 	}
-	if len(skips) != 1 {
-		c.Fail("TABLE.skip", f, "skip predicate", ap.Pos(), "%d paths bypass the append in an iteration (want exactly one: notifications without a reportable error)", len(skips))
+	if len(alts) != 1 || exits != 0 {
+		c.Fail("TABLE.skip", f, "skip predicate", ap.Pos(), "%d paths bypass the append in an iteration and %d leave the loop early (want exactly one bypass: notifications without a reportable error)", len(alts), exits)
 		return
 	}
 	var kinds []string
-	for _, cd := range ir.EdgeConds(skips[0], hdr) {
+	for _, cd := range alts[0] {
 		kinds = append(kinds, describeSkipCond(c, cd))
 	}
 	have := map[string]bool{}
@@ -696,7 +734,7 @@ func ruleSkipPredicate(c *chk.Ctx, f *ssa.Function, ap *ssa.Call) {
 			extra++
 		}
 	}
-	c.Check(ok && extra == 0, "TABLE.skip", f, "skip predicate", skips[0].Instrs[0].Pos(), "a task is skipped exactly when its id is absent ∧ ErrorCode ∉ {ParseError, InvalidRequest}",
+	c.Check(ok && extra == 0, "TABLE.skip", f, "skip predicate", ap.Pos(), "a task is skipped exactly when its id is absent ∧ ErrorCode ∉ {ParseError, InvalidRequest}",
 		"a task is skipped under ["+strings.Join(kinds, " ∧ ")+"], not exactly id absent ∧ code ∉ {-32700, -32600}: notifications could be answered, or calls / invalid members silently dropped")
 }
 
@@ -1136,29 +1174,27 @@ func ruleSingleDispatcher(c *chk.Ctx, d *dispatchModel) {
 	for _, s := range c.P.Callers(d.prepare) {
 		c.Check(s.Caller == pf && ir.InstrDominates(pops[0].(*ssa.Call), s.Instr), "WHO.queue", s.Caller, "prepare follows dequeue", s.Instr.Pos(), "the prepare function is called right where the batch is dequeued", "the prepare function is called elsewhere than after the dequeue")
 	}
-	// D4: the closure is run in a goroutine tracked by the lifetime group, not inline
-	ran := false
-	for _, gc := range classifyGo(c) {
-		if gc.body == nil {
-			continue
-		}
-		callsResult := false
-		ir.Calls(gc.body, func(ci ssa.CallInstruction) {
-			for _, g := range calleesOf(c, ci) {
-				if g == d.closure {
-					callsResult = true
-				}
-			}
-		})
-		if callsResult {
-			ran = true
-			c.Check(gc.kind == "tracked" && gc.wg == chk.PathOfVar(c.M.Server, c.M.SWg).String(), "WHO.queue", gc.g.Parent(), "batches run concurrently", gc.g.Pos(),
-				"each batch's closure runs in its own goroutine registered with the lifetime group", "the batch goroutine is not registered with the server's lifetime WaitGroup")
+	// D4: the batch runner executes in a goroutine of its own, tracked by the lifetime group: the
+	// nearest go statement above every call of the runner is tracked, and is not the dispatcher's
+	// own goroutine (an inline call in the dispatcher would make a running call delay every later
+	// request)
+	dispGo := map[*ssa.Go]bool{}
+	for _, g := range gos {
+		dispGo[g] = true
+	}
+	rgos, _ := goRootsReaching(c, d.closure)
+	for _, g := range rgos {
+		gc := classifyOne(c, g)
+		switch {
+		case dispGo[g]:
+			c.Fail("WHO.queue", g.Parent(), "batches run concurrently", g.Pos(), "the batch runner %s is called on the dispatcher's own goroutine: a running call would delay every later request", ir.Name(d.closure))
+		default:
+			c.Check(gc.kind == "tracked" && gc.wg == chk.PathOfVar(c.M.Server, c.M.SWg).String(), "WHO.queue", g.Parent(), "batches run concurrently", g.Pos(),
+				"each batch's runner executes in its own goroutine registered with the lifetime group", "the batch goroutine is not registered with the server's lifetime WaitGroup")
 		}
 	}
-	if !ran {
-		// is it called inline?
-		c.Fail("WHO.queue", d.closure, "batches run concurrently", d.closure.Pos(), "the dispatch closure is not run in its own goroutine: a running call would delay every later request")
+	if len(rgos) == 0 {
+		c.Fail("WHO.queue", d.closure, "batches run concurrently", d.closure.Pos(), "the batch runner is not run in its own goroutine: a running call would delay every later request")
 	}
 }
 
@@ -1218,7 +1254,7 @@ func ruleNullIsAbsent(c *chk.Ctx, d *dispatchModel) {
 	var norm *ssa.Call
 	// the Request literal's id
 	okReq := false
-	ir.Instrs(f, func(ins ssa.Instruction) {
+	c.P.ExtInstrs(f, func(ins ssa.Instruction) {
 		st, ok := ins.(*ssa.Store)
 		if !ok || !chk.IsField(st.Addr, c.M.QID) {
 			return
@@ -1241,7 +1277,19 @@ func ruleNullIsAbsent(c *chk.Ctx, d *dispatchModel) {
 		why = "the key does not derive from the normalised id"
 		isNormKey := func(v ssa.Value) bool {
 			cv, ok := v.(*ssa.Convert)
-			return ok && cv.X == ssa.Value(norm)
+			if !ok {
+				return false
+			}
+			if cv.X == ssa.Value(norm) {
+				return true
+			}
+			// the Request's own id field (shown above to hold the normalised id)
+			if okReq && chk.LoadsField(cv.X, c.M.QID) {
+				return true
+			}
+			// another application of the normaliser to an inbound id
+			call, ok := cv.X.(*ssa.Call)
+			return ok && isNullNormaliser(c, call.Call.StaticCallee()) && chk.LoadsField(call.Call.Args[0], c.M.JID)
 		}
 		n, good := 0, 0
 		for _, src := range c.P.SourcesStop(res.Key, isNormKey) {
@@ -1260,7 +1308,7 @@ func ruleNullIsAbsent(c *chk.Ctx, d *dispatchModel) {
 func ruleHandlerFromAssigner(c *chk.Ctx, d *dispatchModel) {
 	f := d.checkAssign
 	n := 0
-	ir.Instrs(f, func(ins ssa.Instruction) {
+	c.P.ExtInstrs(f, func(ins ssa.Instruction) {
 		st, ok := ins.(*ssa.Store)
 		if !ok {
 			return
@@ -1270,7 +1318,7 @@ func ruleHandlerFromAssigner(c *chk.Ctx, d *dispatchModel) {
 			return
 		}
 		n++
-		task := ir.NormCell(fa.X)
+		task := c.P.Canon(fa.X)
 		call, isCall := st.Val.(*ssa.Call)
 		good := false
 		if isCall && call.Call.StaticCallee() != nil && ir.RecvNamed(call.Call.StaticCallee()) == c.M.Server && len(call.Call.Args) == 3 {
@@ -1360,7 +1408,7 @@ func ruleBatchFlagChain(c *chk.Ctx, d *dispatchModel) {
 	}
 	// member → task
 	ok := false
-	ir.Instrs(d.checkAssign, func(ins ssa.Instruction) {
+	c.P.ExtInstrs(d.checkAssign, func(ins ssa.Instruction) {
 		st, isSt := ins.(*ssa.Store)
 		if isSt && chk.IsField(st.Addr, c.M.TBatch) && chk.LoadsField(st.Val, c.M.JBatch) {
 			ok = true
@@ -1475,12 +1523,11 @@ func ruleBatchOrder(c *chk.Ctx) {
 // handlerValueOnlyFrom: method h (with the Handler signature) is never called directly and its
 // method value is taken only inside fn (so it runs only as a Handler value fn hands out).
 func handlerValueOnlyFrom(c *chk.Ctx, h, fn *ssa.Function) bool {
-	if len(c.P.Callers(h)) != 0 {
-		// bound-method thunks call the method: accept callers that are synthetic wrappers
-		for _, s := range c.P.Callers(h) {
-			if s.Caller.Synthetic == "" {
-				return false
-			}
+	// the method must never be called directly (calls through a function value are the
+	// Handler-value calls we want; bound-method wrappers are synthetic)
+	for _, s := range c.P.Callers(h) {
+		if s.Caller.Synthetic == "" && s.Instr.Common().StaticCallee() == h {
+			return false
 		}
 	}
 	found := false
